@@ -36,12 +36,16 @@ theorem max_h_parts_total (w h : Nat) (hw : w < 4294967296) (hh : h < 4294967296
     have hpos : 1 ≤ h * max h w := Nat.mul_le_mul hh1 hm
     have hlt : h * max h w ≤ 4294967295 * 4294967295 := Nat.mul_le_mul (by omega) hm2
     simp only [Bool.or_eq_true, decide_eq_true_eq, h0, if_false]
+    -- whichever way round the source writes `max`: one name for the area, then linear arithmetic;
+    -- the quotient is bounded by the dividend whatever the divisor is
+    have emax : max w h = max h w := Nat.max_comm w h
+    try simp only [emax]
     generalize h * max h w = a at *
     have ea : a % 18446744073709551616 = a := Nat.mod_eq_of_lt (by omega)
     simp only [ea]
-    refine ⟨⟨by omega, by omega, by omega, by omega⟩, ?_⟩
-    have : h / max (max (16384 / a % 4294967296) (h / 256)) 1 ≤ h := Nat.div_le_self _ _
-    omega
+    refine ⟨?_, ?_⟩
+    · refine ⟨by omega, by omega, by omega, ?_⟩ <;> omega
+    · exact Nat.le_trans (Nat.div_le_self _ _) (by omega)
 
 /-- the same for the vertical band count and the width -/
 theorem max_v_parts_total (w h : Nat) (hw : w < 4294967296) (hh : h < 4294967296) :
@@ -56,12 +60,16 @@ theorem max_v_parts_total (w h : Nat) (hw : w < 4294967296) (hh : h < 4294967296
     have hpos : 1 ≤ w * max h w := Nat.mul_le_mul hw1 hm
     have hlt : w * max h w ≤ 4294967295 * 4294967295 := Nat.mul_le_mul (by omega) hm2
     simp only [Bool.or_eq_true, decide_eq_true_eq, h0, if_false]
+    -- whichever way round the source writes `max`: one name for the area, then linear arithmetic;
+    -- the quotient is bounded by the dividend whatever the divisor is
+    have emax : max w h = max h w := Nat.max_comm w h
+    try simp only [emax]
     generalize w * max h w = a at *
     have ea : a % 18446744073709551616 = a := Nat.mod_eq_of_lt (by omega)
     simp only [ea]
-    refine ⟨⟨by omega, by omega, by omega, by omega⟩, ?_⟩
-    have : w / max (max (16384 / a % 4294967296) (w / 256)) 1 ≤ w := Nat.div_le_self _ _
-    omega
+    refine ⟨?_, ?_⟩
+    · refine ⟨by omega, by omega, by omega, ?_⟩ <;> omega
+    · exact Nat.le_trans (Nat.div_le_self _ _) (by omega)
 
 /-- hence the split attempted by the threading code (`parts = min threads max_parts`, taken only when
     both are > 1) always satisfies the precondition `1 ≤ parts ≤ extent` of C14 -/
